@@ -599,3 +599,35 @@ impl From<&[u8]> for Bytes {
         Bytes(v.to_vec())
     }
 }
+
+/// A section that only exists so that replay files written out-of-band (fuzz targets, watchdog,
+/// heap cap) can be re-executed with `vp replay`; it contributes no cases of its own.
+pub struct ReplayOnly<I: 'static> {
+    pub name: &'static str,
+    pub check: CheckFn<I>,
+}
+
+impl<I> Section for ReplayOnly<I>
+where
+    I: Debug + Clone + Serialize + DeserializeOwned + Hash + Send + Sync + 'static,
+{
+    fn name(&self) -> &str {
+        self.name
+    }
+    fn replay(&self, input: &Value) -> Result<Result<(), Fail>, String> {
+        let i: I = serde_json::from_value(input.clone()).map_err(|e| e.to_string())?;
+        let mut case = Case::default();
+        eval(self.check, &i, &mut case)
+    }
+    fn run(&self, _ctx: &Ctx) -> SectionReport {
+        SectionReport {
+            name: self.name.to_string(),
+            stats: Stats::default(),
+            violations: Vec::new(),
+            exhaustive: true,
+            rule: "replay only".into(),
+            harness_errors: Vec::new(),
+            wall_s: 0.0,
+        }
+    }
+}
